@@ -281,7 +281,7 @@ class Writer:
         return f'data/{t[:2]}/{t[2:4]}/{t[4:]}-{n}'
 
     def add_snapshot(self, files, utc_timestamp, note=None, chunk_len=8, legacy_metadata=False, metadata=None,
-                     shuffle_chunks=False):
+                     shuffle_chunks=False, chunkless_empty=False):
         """files: {absolute path: bytes}. One stream of all files (no padding), fixed-size chunks."""
         table, order = {}, []
         file_entries = []
@@ -297,7 +297,7 @@ class Writer:
                     md.update({'st_atime_ns': 1_600_000_500_000_000_321, 'st_mtime_ns': 1_600_000_400_000_000_123,
                                'st_ctime_ns': 1_600_000_400_000_000_123})
             entry['metadata'] = md
-            pieces = [data[i:i + chunk_len] for i in range(0, len(data), chunk_len)] or [b'']
+            pieces = [data[i:i + chunk_len] for i in range(0, len(data), chunk_len)] or ([] if chunkless_empty else [b''])
             for piece in pieces:
                 counter += 1
                 if not piece:
